@@ -224,9 +224,48 @@ func (e *expr) body() string {
 
 func (e *expr) String() string { return e.body() }
 
-func grammarText(e *expr) string {
-	return "language x(go);\n\n:: lexer\n\nta: /a/\ntb: /b/\ntc: /c/\n\n:: parser\n\n%input S, Z;\n\n" +
-		"S :\n    " + e.body() + "\n;\n\nZ :\n    tb S\n  | ta* tc\n;\n\nX :\n    tc\n  | tc X\n;\n"
+// frame says how the body is embedded: the names of the first two nonterminals (the generated names
+// of extracted lists, sets and lookaheads sort before, between or after them, which decides how
+// Expand permutes the nonterminals) and whether the FIRST nonterminal refers to itself.
+type frame struct {
+	S   string `json:"s,omitempty"`   // name of the first nonterminal (default S)
+	Z   string `json:"z,omitempty"`   // name of the second nonterminal (default Z)
+	Rec int    `json:"rec,omitempty"` // 0: S: e   1: S: e | tb S   2: S: S e | tb   3: S: e | tc Z (Z: tb S | ...)
+}
+
+func (f frame) sName() string {
+	if f.S == "" {
+		return "S"
+	}
+	return f.S
+}
+
+func (f frame) zName() string {
+	if f.Z == "" {
+		return "Z"
+	}
+	return f.Z
+}
+
+func (f frame) String() string {
+	return fmt.Sprintf("%s/%s/rec%d", f.sName(), f.zName(), f.Rec)
+}
+
+func grammarText(e *expr, f frame) string {
+	sn, zn := f.sName(), f.zName()
+	var body string
+	switch f.Rec {
+	case 0:
+		body = e.body()
+	case 1:
+		body = e.body() + "\n  | tb " + sn
+	case 2:
+		body = sn + " " + e.parts() + "\n  | tb"
+	case 3:
+		body = e.body() + "\n  | tc " + zn
+	}
+	return "language x(go);\n\n:: lexer\n\nta: /a/\ntb: /b/\ntc: /c/\n\n:: parser\n\n%input " + sn + ", " + zn + ";\n\n" +
+		sn + " :\n    " + body + "\n;\n\n" + zn + " :\n    tb " + sn + "\n  | ta* tc\n;\n\nX :\n    tc\n  | tc X\n;\n"
 }
 
 // ---------- reference semantics
@@ -322,11 +361,28 @@ func sepLang(e *expr) *extsem.Lang {
 	return l
 }
 
-func reference(e *expr) refLangs {
+func reference(e *expr, f frame) refLangs {
 	initLangs()
-	s := denote(e)
-	z := extsem.LUnion(extsem.LConcat(lB, s), extsem.LConcat(extsem.LStar(lA), lC))
-	return refLangs{S: s, Z: z, X: lX}
+	el := denote(e)
+	tail := extsem.LConcat(extsem.LStar(lA), lC) // ta* tc
+	zOf := func(s *extsem.Lang) *extsem.Lang { return extsem.LUnion(extsem.LConcat(lB, s), tail) }
+	var s *extsem.Lang
+	switch f.Rec {
+	case 0:
+		s = el
+	case 1: // S: e | tb S
+		s = extsem.LConcat(extsem.LStar(lB), el)
+	case 2: // S: S e | tb
+		s = extsem.LConcat(lB, extsem.LStar(el))
+	case 3: // S: e | tc Z, Z: tb S | ta* tc  (least solution by iteration)
+		s = el.Clone()
+		for {
+			if !s.AddAll(extsem.LConcat(lC, zOf(s))) {
+				break
+			}
+		}
+	}
+	return refLangs{S: s, Z: zOf(s), X: lX}
 }
 
 // ---------- observed side
@@ -469,16 +525,36 @@ func countLists(e *expr) int {
 	return n
 }
 
-func observeModel(e *expr, rrMask int) (*plain, error) {
+func observeModel(e *expr, f frame, rrMask int) (*plain, error) {
 	o := gramenum.Origin{}
 	m := &syntax.Model{
 		Terminals: []syntax.Terminal{{Name: "eoi"}, {Name: "invalid_token"}, {Name: "ta"}, {Name: "tb"}, {Name: "tc"}},
 		Inputs:    []syntax.Input{{Nonterm: 0}, {Nonterm: 1}},
 	}
 	b := &modelBuilder{m: m, rrMask: rrMask}
-	sVal := b.conv(e)
+	ev := b.conv(e)
 	ref := func(sym int) *syntax.Expr {
 		return &syntax.Expr{Kind: syntax.Reference, Symbol: sym, Model: m, Origin: o, Pos: 1}
+	}
+	seq := func(subs ...*syntax.Expr) *syntax.Expr {
+		return &syntax.Expr{Kind: syntax.Sequence, Origin: o, Sub: subs}
+	}
+	alts := []*syntax.Expr{ev} // the alternatives of the body as the front end sees them
+	if ev.Kind == syntax.Choice {
+		alts = ev.Sub
+	}
+	sVal := ev
+	switch f.Rec {
+	case 1:
+		sVal = &syntax.Expr{Kind: syntax.Choice, Origin: o, Sub: append(append([]*syntax.Expr{}, alts...), seq(ref(tB), ref(ntS)))}
+	case 2:
+		parts := []*syntax.Expr{ev}
+		if ev.Kind == syntax.Sequence {
+			parts = ev.Sub
+		}
+		sVal = &syntax.Expr{Kind: syntax.Choice, Origin: o, Sub: []*syntax.Expr{seq(append([]*syntax.Expr{ref(ntS)}, parts...)...), ref(tB)}}
+	case 3:
+		sVal = &syntax.Expr{Kind: syntax.Choice, Origin: o, Sub: append(append([]*syntax.Expr{}, alts...), seq(ref(tC), ref(ntZ)))}
 	}
 	zVal := &syntax.Expr{Kind: syntax.Choice, Origin: o, Sub: []*syntax.Expr{
 		{Kind: syntax.Sequence, Origin: o, Sub: []*syntax.Expr{ref(tB), ref(ntS)}},
@@ -490,8 +566,8 @@ func observeModel(e *expr, rrMask int) (*plain, error) {
 		{Kind: syntax.Sequence, Origin: o, Sub: []*syntax.Expr{ref(tC), ref(ntX)}},
 	}}
 	m.Nonterms = []*syntax.Nonterm{
-		{Name: "S", Value: sVal, Origin: o},
-		{Name: "Z", Value: zVal, Origin: o},
+		{Name: f.sName(), Value: sVal, Origin: o},
+		{Name: f.zName(), Value: zVal, Origin: o},
 		{Name: "X", Value: xVal, Origin: o},
 	}
 	if err := syntax.Expand(m, syntax.DefaultExpandOptions()); err != nil {
@@ -550,10 +626,11 @@ func observeModel(e *expr, rrMask int) (*plain, error) {
 // ---------- comparison
 
 type cas struct {
-	Mode string `json:"mode"` // tm | model
-	Expr *expr  `json:"expr"`
-	RR   int    `json:"rr,omitempty"` // bit i: i-th list (pre-order) is right-recursive (model mode)
-	Text string `json:"text,omitempty"`
+	Mode  string `json:"mode"` // tm | model
+	Expr  *expr  `json:"expr"`
+	RR    int    `json:"rr,omitempty"` // bit i: i-th list (pre-order) is right-recursive (model mode)
+	Text  string `json:"text,omitempty"`
+	Frame frame  `json:"frame,omitempty"`
 
 	ref *refLangs
 }
@@ -621,7 +698,7 @@ func check(cs *cas) (res result) {
 		if cs.Mode == "tm" {
 			p, res.confl, err = observeTM(cs.Text)
 		} else {
-			p, err = observeModel(e, cs.RR)
+			p, err = observeModel(e, cs.Frame, cs.RR)
 		}
 	})
 	site := cs.Mode
@@ -646,7 +723,7 @@ func check(cs *cas) (res result) {
 		return
 	}
 	if cs.ref == nil {
-		r := reference(e)
+		r := reference(e, cs.Frame)
 		cs.ref = &r
 	}
 	want := *cs.ref
@@ -660,16 +737,17 @@ func check(cs *cas) (res result) {
 		}
 		byName[n] = i
 	}
-	if len(p.inputs) != 2 || p.inputs[0] != byName["S"] || p.inputs[1] != byName["Z"] {
+	sn, zn := cs.Frame.sName(), cs.Frame.zName()
+	if len(p.inputs) != 2 || p.inputs[0] != byName[sn] || p.inputs[1] != byName[zn] {
 		res.key = site + ":inputs-moved"
-		res.what = fmt.Sprintf("body %q: inputs are %v, want S=%d Z=%d", e.String(), p.inputs, byName["S"], byName["Z"])
+		res.what = fmt.Sprintf("body %q (frame %s): inputs are %v, want %s=%d %s=%d", e.String(), cs.Frame, p.inputs, sn, byName[sn], zn, byName[zn])
 		return
 	}
 	for _, c := range []struct {
 		name string
 		want *extsem.Lang
 	}{{"S", want.S}, {"X", want.X}, {"Z", want.Z}} {
-		idx, ok := byName[c.name]
+		idx, ok := byName[map[string]string{"S": sn, "Z": zn, "X": "X"}[c.name]]
 		if !ok {
 			res.key = site + ":missing-nonterminal:" + c.name
 			res.what = fmt.Sprintf("body %q: no symbol %s", e.String(), c.name)
@@ -682,8 +760,8 @@ func check(cs *cas) (res result) {
 				dir = "extra"
 			}
 			res.key = fmt.Sprintf("%s:lang-%s:%s:%s", site, dir, c.name, opsSignature(e))
-			res.what = fmt.Sprintf("body %q (rr=%b): plain rules of %s derive a different language: %q is %s (rules: %s)",
-				e.String(), cs.RR, c.name, symString(w), map[bool]string{true: "derived but not denoted", false: "denoted but not derived"}[inGot], p.dump())
+			res.what = fmt.Sprintf("body %q (rr=%b, frame %s): plain rules of %s derive a different language: %q is %s (rules: %s)",
+				e.String(), cs.RR, cs.Frame, c.name, symString(w), map[bool]string{true: "derived but not denoted", false: "denoted but not derived"}[inGot], p.dump())
 			return
 		}
 	}
@@ -699,7 +777,7 @@ func check(cs *cas) (res result) {
 		}
 		o := cfgoracle.New(g, maxLen)
 		for _, name := range []string{"S", "Z"} {
-			a := o.Lang(byName[name] + 1)
+			a := o.Lang(byName[map[string]string{"S": sn, "Z": zn}[name]] + 1)
 			wl := want.S
 			if name == "Z" {
 				wl = want.Z
@@ -762,7 +840,8 @@ type violation struct {
 type level struct {
 	name   string
 	bodies func() []*expr
-	masks  string // model layer: all | nonzero | ones | none
+	masks  string  // model layer: all | nonzero | ones | none
+	frames []frame // nil: the plain frame only
 }
 
 func main() { core.Main("C13", "exploration", run, replay, nil) }
@@ -821,7 +900,7 @@ func run(c *core.Ctx) {
 		go func() { time.Sleep(40 * time.Second); pprof.StopCPUProfile(); os.Exit(0) }()
 	}
 	c.Rule("bodies enumerated by (depth, leaves), simplest first, over 6 leaf kinds {ta, tb, X, set(ta|tb), set(~ta), (?= X)}, 5 unary and 2 binary " +
-		"operators: every expression of depth<=2 and of depth 3 with one leaf; twins = every ordered pair of two lists over the same element (4 elements x 18 list forms with separators of 1 and 2 terminals in all orders, + and *) combined as L1 | tc L2 and L1 tc L2; every depth-3 operator shape with 2..4 leaves under a fixed list of leaf " +
+		"operators: every expression of depth<=2 and of depth 3 with one leaf; first-nonterminal = every body of depth<=1, depth 2 with one leaf and every 8th (thorough: every) body of depth 2 with two leaves, in 13 frames: the first nonterminal named zz / input / Aa / S (generated names sort before, around, after it) x {S: e | tb S, S: S e | tb, S: e | tc Z with Z: tb S | ..., plain}; twins = every ordered pair of two lists over the same element (4 elements x 18 list forms with separators of 1 and 2 terminals in all orders, + and *) combined as L1 | tc L2 and L1 tc L2; every depth-3 operator shape with 2..4 leaves under a fixed list of leaf " +
 		"labelings (thorough: all 36 labelings for 2 leaves, then all 216 labelings for 3 leaves and 24 more for 4 leaves one labeling per level " +
 		"until 18 minutes have passed). Each body goes " +
 		"through compiler.Compile (tm layer) and through syntax.Expand on a hand-built model with subsets of its lists right-recursive (model layer). " +
@@ -866,6 +945,33 @@ func run(c *core.Ctx) {
 	lab3 := [][]string{{"a", "a", "la"}}
 	lab4 := [][]string{{"a", "la", "a", "X"}}
 	levels = append(levels, level{name: "twins", bodies: twins, masks: "nonzero"})
+	// The first declared nonterminal refers to itself (right and left recursion, mutual recursion with
+	// the second one) and is named so that the generated names sort before it ("zz"), around it
+	// ("input": after Ta_list and X_list, before lookahead_X and setof_...) or after it ("Aa").
+	firstNT := func() []*expr {
+		var out []*expr
+		out = append(out, d2[0][1]...)
+		out = append(out, d2[1][1]...)
+		out = append(out, d2[1][2]...)
+		out = append(out, d2[2][1]...)
+		for i, e := range d2[2][2] {
+			if !c.Quick() || i%8 == 0 {
+				out = append(out, e)
+			}
+		}
+		return out
+	}
+	var frames []frame
+	for _, names := range [][2]string{{"zz", "Aa"}, {"input", "zy"}, {"Aa", "zz"}} {
+		for rec := 0; rec <= 3; rec++ {
+			if names[0] == "Aa" && rec != 1 && rec != 3 {
+				continue
+			}
+			frames = append(frames, frame{S: names[0], Z: names[1], Rec: rec})
+		}
+	}
+	frames = append(frames, frame{Rec: 1}, frame{Rec: 2}, frame{Rec: 3})
+	levels = append(levels, level{name: "first-nonterminal", bodies: firstNT, masks: "ones", frames: frames})
 	if c.Quick() {
 		levels = append(levels, labeled(2, lab2, "ones"), labeled(3, lab3, "ones"), labeled(4, lab4, "none"))
 	} else {
@@ -933,51 +1039,57 @@ func run(c *core.Ctx) {
 			if hi > len(batch) {
 				hi = len(batch)
 			}
+			frames := lv.frames
+			if frames == nil {
+				frames = []frame{{}}
+			}
 			for _, e := range batch[lo:hi] {
-				rl := reference(e)
-				todo := []*cas{{Mode: "tm", Expr: e, Text: grammarText(e), ref: &rl}}
-				if nl := countLists(e); lv.masks != "none" {
-					ones := 1<<uint(nl) - 1
-					switch lv.masks {
-					case "ones":
-						if nl > 0 {
-							todo = append(todo, &cas{Mode: "model", Expr: e, RR: ones, ref: &rl})
-						}
-					default:
-						for mask := 0; mask <= ones; mask++ {
-							if mask == 0 && lv.masks != "all" {
-								continue
+				for _, fr := range frames {
+					rl := reference(e, fr)
+					todo := []*cas{{Mode: "tm", Expr: e, Frame: fr, Text: grammarText(e, fr), ref: &rl}}
+					if nl := countLists(e); lv.masks != "none" {
+						ones := 1<<uint(nl) - 1
+						switch lv.masks {
+						case "ones":
+							if nl > 0 {
+								todo = append(todo, &cas{Mode: "model", Expr: e, Frame: fr, RR: ones, ref: &rl})
 							}
-							todo = append(todo, &cas{Mode: "model", Expr: e, RR: mask, ref: &rl})
+						default:
+							for mask := 0; mask <= ones; mask++ {
+								if mask == 0 && lv.masks != "all" {
+									continue
+								}
+								todo = append(todo, &cas{Mode: "model", Expr: e, Frame: fr, RR: mask, ref: &rl})
+							}
 						}
 					}
-				}
-				for _, cs := range todo {
-					r := check(cs)
-					c.Eval(1)
-					mu.Lock()
-					if cs.Mode == "tm" {
-						nBodies++
-						if r.confl {
-							nConfl++
+					for _, cs := range todo {
+						r := check(cs)
+						c.Eval(1)
+						mu.Lock()
+						if cs.Mode == "tm" {
+							nBodies++
+							if r.confl {
+								nConfl++
+							}
+							if r.key == "" && r.nontriv {
+								distinct[r.sHash] = true
+								nNontriv++
+							}
+							if r.crossed {
+								nCross++
+							}
+						} else {
+							nModel++
+							if cs.RR != 0 {
+								nRR++
+							}
 						}
-						if r.key == "" && r.nontriv {
-							distinct[r.sHash] = true
-							nNontriv++
+						if r.key != "" {
+							found[ci] = append(found[ci], violation{r.key, r.what, cs})
 						}
-						if r.crossed {
-							nCross++
-						}
-					} else {
-						nModel++
-						if cs.RR != 0 {
-							nRR++
-						}
+						mu.Unlock()
 					}
-					if r.key != "" {
-						found[ci] = append(found[ci], violation{r.key, r.what, cs})
-					}
-					mu.Unlock()
 				}
 			}
 		})
@@ -1024,7 +1136,7 @@ func replay(c *core.Ctx, raw json.RawMessage) error {
 	}
 	cs.Expr.fix()
 	if cs.Mode == "tm" && cs.Text == "" {
-		cs.Text = grammarText(cs.Expr)
+		cs.Text = grammarText(cs.Expr, cs.Frame)
 	}
 	r := check(&cs)
 	if r.key != "" {
